@@ -17,7 +17,7 @@ RULE = ('seeded charts and histories in which is_in(X)/child_state(P) queries (X
 ASSUMPTIONS = ['no schedule dimension', 'queries are issued between steps only (the statement says so)']
 PROBES = []
 PLAN = {
-  'quick': {'strata': {'queries': 5000}, 'wall_s': 90, 'chunk': 100, 'min_conclusive': 1000},
+  'quick': {'strata': {'queries': 5000}, 'wall_s': 300, 'chunk': 100, 'min_conclusive': 1000},
   'thorough': {'strata': {'queries': 120000}, 'wall_s': 900, 'chunk': 250, 'min_conclusive': 10000},
 }
 
